@@ -526,8 +526,18 @@ func (vfs *MemFS) OpenFile(name string, flag int, perm fs.FileMode) (avfs.File, 
 	at := int64(0)
 	om := avfs.ToOpenMode(flag)
 
-	parent, child, pi, err := vfs.searchNode(name, slmEval)
+	// With O_CREATE|O_EXCL a symbolic link in the last element of the path is not followed: the name exists.
+	slm := slmEval
+	if om&avfs.OpenCreateExcl != 0 {
+		slm = slmLstat
+	}
+
+	parent, child, pi, err := vfs.searchNode(name, slm)
 	if err != vfs.err.FileExists && !vfs.isNotExist(err) || !pi.IsLast() {
+		return (*MemFile)(nil), &fs.PathError{Op: op, Path: name, Err: err}
+	}
+
+	if _, ok := child.(*symlinkNode); ok && err == vfs.err.FileExists && om&avfs.OpenCreateExcl != 0 {
 		return (*MemFile)(nil), &fs.PathError{Op: op, Path: name, Err: err}
 	}
 
